@@ -38,7 +38,7 @@ def sdssflux2ab(flux, magnitude=False, ivar=False):
     else:
         factor = 10.0 ** (-correction / 2.5)
         if ivar:
-            factor = 1.0 / factor
+            factor = 1.0 / factor ** 2
         for i in range(rows):
             abflux[i, :] *= factor
     return abflux
